@@ -38,7 +38,7 @@ PROPS = {
     },
     'C07': {
         'modules': ['OtterVerif.Props.C07', 'OtterVerif.Props.C06Conc'],
-        'engines': [seq(['bound', 'mix', 'expiry'], 300, 10000, lambda f: f['class'] == 'events'),
+        'engines': [seq(['bound', 'mix', 'expiry', 'huge'], 400, 12000, lambda f: f['class'] == 'events'),
                     {'kind': 'unit', 'name': 'concevents', 'hcmd': 'conc-events', 'dcmd': 'concevents', 'quick': 120, 'thorough': 6000, 'chunk': 10, 'args': [],
                      'accept': lambda f: 'C07' in f['msg'] or 'more than once' in f['msg']}],
     },
